@@ -6,6 +6,7 @@ import (
 	"sort"
 	"time"
 
+	btapb "cloud.google.com/go/bigtable/admin/apiv2/adminpb"
 	btpb "cloud.google.com/go/bigtable/apiv2/bigtablepb"
 	"github.com/fullstorydev/emulators/bigtable/bttest"
 
@@ -18,7 +19,7 @@ import (
 func init() { register("C16", "exploration", runC16) }
 
 func runC16(run *common.Run) {
-	run.Rule = "Part 'policy' (sequential): case = generated table (families with max-versions 1..3, max-age, union of both, nested union, intersection [unsupported], no rule) with cells exactly at, 1 ms before and 1 ms after the max-age cut-off, several versions, rows that become empty, plus a second table without rules; one real pass forced through the hook entry point with the injected clock; full scans before/after compared with the GC model, emptied rows absent from ReadRows and SampleRowKeys. Part 'race': case = one forced pass over 250-1200 rows during which, at every point where the pass has released the table lock (hook gc.unlocked), 1-3 client writes (new cell, overwrite, old-timestamp cell, DeleteFromRow) to rows behind, at and ahead of the cursor are performed and acknowledged; final scan: every written row must equal 'GC applied at some position of its acknowledged write sequence', unwritten rows GC(initial) [all three engines]. Part 'idle': a pass on a table used just now changes nothing, after pretending 10 min of inactivity it collects; a pass over >= 2000 rows releases the lock at least once and clients complete while it is parked there. Non-trivial = pass that removed some but not all cells (policy) / pass with >= 1 injected write acknowledged (race); distinct by case."
+	run.Rule = "Part 'policy' (sequential): case = generated table (families with max-versions 1..3, max-age, union of both, nested union, intersection [unsupported], no rule) with cells exactly at, 1 ms before and 1 ms after the max-age cut-off, several versions, rows that become empty, plus a second table without rules; one real pass forced through the hook entry point with the injected clock; full scans before/after compared with the GC model, emptied rows absent from ReadRows and SampleRowKeys. Part 'race': case = one forced pass over 250-1200 rows during which, at every point where the pass has released the table lock (hook gc.unlocked), client requests are performed and acknowledged: 1-3 row writes (new cell, overwrite, old-timestamp cell, DeleteFromRow) to rows behind, at and ahead of the cursor, and/or DropRowRange of a ten-row prefix block (one pass in four: only DropRowRange, no data-plane request at all), or a single ModifyColumnFamilies drop of a family; final scan: every written row must equal 'GC applied at some position of its acknowledged write sequence', unwritten rows GC(initial) [all three engines]. Part 'idle': a pass on a table used just now changes nothing, after pretending 10 min of inactivity it collects; a pass over >= 2000 rows releases the lock at least once and clients complete while it is parked there. Non-trivial = pass that removed some but not all cells (policy) / pass with >= 1 injected write acknowledged (race); distinct by case."
 	run.Assumptions = []string{"GC model: max-versions keeps the N newest, max-age condemns ts < now-age, union = either, unsupported types leave the family alone", "nested intersection inside a union is not generated", "the 15-60 s scheduling loop itself is not waited for; the pass is entered through the verif hook"}
 	if run.WantSub("policy") {
 		c16Policy(run)
@@ -197,6 +198,8 @@ type c16PassResult struct {
 	injected    int
 	hits        int
 	rowsWritten int
+	mode        int
+	drops       int // DropRowRange / ModifyColumnFamilies requests acknowledged while the pass was parked
 }
 
 func c16Race(run *common.Run) {
@@ -218,6 +221,8 @@ func c16Race(run *common.Run) {
 		run.Count("raced_passes", 1)
 		run.Count("injected_writes_acknowledged_while_pass_parked", int64(res.injected))
 		run.Count("rows_written_during_a_pass", int64(res.rowsWritten))
+		run.Count("admin_drops_acknowledged_while_pass_parked", int64(res.drops))
+		run.Count(fmt.Sprintf("passes_mode_%d", res.mode), 1)
 		if p < 2 {
 			run.Sample(res.info)
 		}
@@ -276,6 +281,18 @@ func c16RacePass(r *common.Rand, engine string, allowDelete bool) (out c16PassRe
 		var order []string
 		var injected, hits int
 		var hangMsg string
+		// what is injected while the pass is parked: 0 = row writes only; 1 = row writes and DropRowRange(prefix);
+		// 2 = DropRowRange(prefix) only (no data-plane request at all during the pass); 3 = nothing but one
+		// ModifyColumnFamilies(drop "plain") at one unlock point
+		mode := r.Intn(4)
+		out.mode = mode
+		dropAt := r.Intn(3)
+		record := func(k string, muts []model.Mut) {
+			if _, ok := writes[k]; !ok {
+				order = append(order, k)
+			}
+			writes[k] = append(writes[k], c16Write{k, muts})
+		}
 		bttest.VerifSetHandler(func(point string, k []byte) {
 			if point != "gc.unlocked" {
 				return
@@ -283,6 +300,52 @@ func c16RacePass(r *common.Rand, engine string, allowDelete bool) (out c16PassRe
 			hits++
 			var cur int
 			fmt.Sscanf(string(k), "row%05d", &cur)
+			if mode == 3 {
+				if hits-1 != dropAt {
+					return
+				}
+				ctx, cancel := context.WithTimeout(context.Background(), 20*time.Second)
+				_, err := srv.Admin.ModifyColumnFamilies(ctx, &btapb.ModifyColumnFamiliesRequest{Name: table, Modifications: []*btapb.ModifyColumnFamiliesRequest_Modification{{Id: "plain", Mod: &btapb.ModifyColumnFamiliesRequest_Modification_Drop{Drop: true}}}})
+				cancel()
+				if err != nil {
+					hangMsg = fmt.Sprintf("ModifyColumnFamilies(drop plain) issued while the pass was parked at its unlock point (cursor %s) did not complete: %v", k, err)
+					return
+				}
+				injected++
+				out.drops++
+				for i := 0; i <= N; i++ {
+					record(key(i), []model.Mut{{Kind: model.DelFam, Fam: "plain"}})
+				}
+				return
+			}
+			if mode == 2 || (mode == 1 && r.Chance(1, 3)) {
+				// drop a block of ten rows: mostly ahead of the cursor, sometimes the block the cursor is in or one behind
+				var blk int
+				switch r.Intn(5) {
+				case 0:
+					blk = cur / 10
+				case 1:
+					blk = r.Intn(cur/10 + 1)
+				default:
+					blk = cur/10 + 1 + r.Intn((N-cur)/10+1)
+				}
+				prefix := fmt.Sprintf("row%04d", blk)
+				ctx, cancel := context.WithTimeout(context.Background(), 20*time.Second)
+				_, err := srv.Admin.DropRowRange(ctx, &btapb.DropRowRangeRequest{Name: table, Target: &btapb.DropRowRangeRequest_RowKeyPrefix{RowKeyPrefix: []byte(prefix)}})
+				cancel()
+				if err != nil {
+					hangMsg = fmt.Sprintf("DropRowRange(%q) issued while the pass was parked at its unlock point (cursor %s) did not complete: %v", prefix, k, err)
+					return
+				}
+				injected++
+				out.drops++
+				for i := blk * 10; i < blk*10+10 && i <= N; i++ {
+					record(key(i), []model.Mut{{Kind: model.DelRow}})
+				}
+				if mode == 2 {
+					return
+				}
+			}
 			nw := r.Range(1, 3)
 			for w := 0; w < nw; w++ {
 				var target int
@@ -320,15 +383,12 @@ func c16RacePass(r *common.Rand, engine string, allowDelete bool) (out c16PassRe
 					return
 				}
 				injected++
-				if _, ok := writes[key(target)]; !ok {
-					order = append(order, key(target))
-				}
-				writes[key(target)] = append(writes[key(target)], c16Write{key(target), muts})
+				record(key(target), muts)
 			}
 		})
 		bttest.VerifRunGC(srv.S, table, true)
 		bttest.VerifSetHandler(nil)
-		info := map[string]any{"engine": engine, "rows": N, "unlock_points": hits, "injected_writes": injected}
+		info := map[string]any{"engine": engine, "rows": N, "unlock_points": hits, "injected_requests": injected, "mode": []string{"row writes", "row writes + DropRowRange", "DropRowRange only", "one ModifyColumnFamilies(drop)"}[mode]}
 		out.info, out.injected, out.hits = info, injected, hits
 		if hangMsg != "" {
 			return fail(hangMsg)
